@@ -62,6 +62,10 @@ enum COp {
 	Start,
 	Pause,
 	Stop,
+	/// stop() immediately followed by start(): both reach the audio thread in the same callback; the clock restarts from zero
+	StopStart,
+	/// pause() immediately followed by start(): the last one wins, the clock keeps running
+	PauseStart,
 	SetSpeed { target: Sp, dur: f64, easing: Easing, sched: Sched },
 }
 
@@ -111,10 +115,12 @@ fn exact_time_case(ctx: &mut Ctx, idx: u64, r: &mut Rng) -> Result<(u64, bool), 
 	let mut paused_value: Option<ClockTime> = None;
 	for opi in 0..n_ops {
 		// ---- one operation on the clock, then 1..4 callbacks
-		let op = match r.below(10) {
+		let op = match r.below(12) {
 			0 | 1 | 2 => COp::Start,
 			3 => COp::Pause,
 			4 => COp::Stop,
+			10 => COp::StopStart,
+			11 => COp::PauseStart,
 			_ => COp::SetSpeed {
 				target: Sp::gen(r),
 				dur: if r.chance(0.3) { 0.0 } else { r.f64_in(0.0, 0.2) },
@@ -147,6 +153,20 @@ fn exact_time_case(ctx: &mut Ctx, idx: u64, r: &mut Rng) -> Result<(u64, bool), 
 					ticking = false;
 					lo = 0.0;
 					hi = 0.0;
+					paused_value = None;
+				}
+				COp::StopStart => {
+					clock.stop();
+					clock.start();
+					ticking = true;
+					lo = 0.0;
+					hi = 0.0;
+					paused_value = None;
+				}
+				COp::PauseStart => {
+					clock.pause();
+					clock.start();
+					ticking = true;
 					paused_value = None;
 				}
 				COp::SetSpeed { target, dur, easing, sched } => {
@@ -724,6 +744,32 @@ pub fn run(ctx: &mut Ctx) {
 		}
 	}
 	ctx.count("monitor1_frames_rendered", frames);
+	// monitor 1b: a clock whose speed follows a moving modulator advances by chunk duration x the speed mapped from the
+	// modulator's value of the same chunk (the oracle is shared with C17)
+	let n1b = ctx.t(3_000u64, 300_000u64);
+	let mut linked = 0u64;
+	for i in 0..n1b {
+		if !ctx.owns("modspeed", i) {
+			continue;
+		}
+		if !ctx.replaying() && !ctx.time_left(0.45) {
+			break;
+		}
+		let mut r = Rng::for_case(ctx.seed, 505, i);
+		ctx.eval();
+		crate::monitors::set_current(ctx, "modspeed", i, "clock speed linked to a modulator", false);
+		let res = super::guarded(|| crate::props::c17::clock_link_case(&mut r));
+		crate::monitors::clear_current();
+		match res {
+			Ok(Ok(k)) => {
+				linked += k;
+				ctx.distinct_key(0xC05_0005_0000_0000 | (i % 64));
+			}
+			Ok(Err(e)) => ctx.violation("modspeed", i, &e, J::Null),
+			Err(p) => ctx.violation("modspeed", i, &format!("panic: {}", p.first().map(|p| p.sig()).unwrap_or_default()), J::Null),
+		}
+	}
+	ctx.count("modulator_linked_speed_chunks_checked", linked);
 	// monitor 2
 	let n2 = ctx.t(20_000u64, 2_000_000u64);
 	let mut frames2 = 0u64;
